@@ -9,7 +9,6 @@ use std::sync::Arc;
 use jj_lib::backend::TreeId;
 use jj_lib::backend::TreeValue;
 use jj_lib::conflict_labels::ConflictLabels;
-use jj_lib::files;
 use jj_lib::merge::Merge;
 use jj_lib::merged_tree::MergedTree;
 use jj_lib::repo::Repo as _;
@@ -113,51 +112,6 @@ fn dump_outcome(store: &Arc<Store>, o: &Outcome) -> String {
         }
     }
     s
-}
-
-/// Content-merge outcomes for every path whose (simplified) terms are all files: what
-/// files::try_merge + write_file give for the simplified file-id conflict.
-fn oracle(store: &Arc<Store>, intern: &mut Interner, unresolved: &Merge<TreeId>, paths: &BTreeSet<Vec<u8>>) -> Vec<String> {
-    let root = RepoPath::root();
-    let trees: Vec<_> = unresolved
-        .iter()
-        .map(|id| store.get_tree(root.to_owned(), id).block_on().unwrap())
-        .collect();
-    let mut seen = BTreeSet::new();
-    let mut out = vec![];
-    for p in paths {
-        let path = repo_path(p);
-        let vals: Vec<Option<TreeValue>> = trees
-            .iter()
-            .map(|t| t.path_value(&path).block_on().unwrap())
-            .collect();
-        let simplified = Merge::from_vec(vals).simplify();
-        let Ok(ids) = simplified.try_map(|v| match v {
-            Some(TreeValue::File { id, .. }) => Ok(id.clone()),
-            _ => Err(()),
-        }) else {
-            continue;
-        };
-        let ids = ids.simplify();
-        if ids.is_resolved() {
-            continue;
-        }
-        let key: Vec<u64> = ids.iter().map(|id| intern.file(id)).collect();
-        if !seen.insert(key.clone()) {
-            continue;
-        }
-        let contents = ids.map(|id| read_file(store, &path, id));
-        let merged = files::try_merge(&contents, store.merge_options());
-        let res = merged.map(|content| {
-            let id = store.write_file(&path, &mut content.as_slice()).block_on().unwrap();
-            intern.file(&id)
-        });
-        out.push(coq::pair(
-            coq::list(key.iter(), |x| coq::n(*x)),
-            coq::opt(res, coq::n),
-        ));
-    }
-    out
 }
 
 fn file(c: usize) -> V {
@@ -339,8 +293,8 @@ fn main() {
             }
             let inputs_term = list_of(rows);
             let unresolved_term = intern.trees(&o.unresolved);
-            let paths: BTreeSet<Vec<u8>> = o.values.iter().map(|(p, _)| p.clone()).collect();
-            let oracle_rows = oracle(&store, &mut intern, &o.unresolved, &paths);
+            let mut oracle_rows = vec![];
+            oracle_rounds(&store, &mut intern, &o.unresolved, &mut BTreeSet::new(), &mut oracle_rows);
             let merged_term = match &o.merged {
                 Some(m) => format!("(Some {})", intern.trees(m)),
                 None => "None".into(),
